@@ -86,18 +86,18 @@ class Oracle:
         return None
 
 
-def gen_case(rng, length, BASES=BASES):
+def gen_case(rng, length, BASES=BASES, NSS=None, weights=None):
     ops, expect, meta = [], [], []
     orc = Oracle()
     nbody = itertools.count()
     for _ in range(length):
         base = rng.choice(BASES)
-        ns = rng.choice(USED_NS)
+        ns = rng.choice(NSS or USED_NS)
         variant = rng.choice(VARIANTS)
         if variant == "main" and ns != 0:
             variant = "plain"
         k = rng.choices(["add", "radd", "get", "exists", "body", "resolve", "commit", "reopen", "visit"],
-                        [5, 1.5, 5, 2, 2, 2, 0.5, 0.7, 0.4])[0]
+                        weights or [5, 1.5, 5, 2, 2, 2, 0.5, 0.7, 0.4])[0]
         if k == "add":
             v = rng.choice(["plain", "prefixed"]) if ns != 0 else rng.choice(["plain", "main"])
             title = spell(rng, base, ns, v).replace("_", " ")
@@ -202,6 +202,11 @@ def run(run):
     for i in range(n):
         ln = run.rng.randint(1, 4) if i % 3 == 0 else run.rng.randint(5, 40)
         cases.append(gen_case(run.rng, ln))
+    # dense small worlds: two case variants of one title and one other page in one or two namespaces, many redirects and
+    # redirect-resolving reads (a redirect next to a real page that differs only in the case of the first letter, ...)
+    for i in range(max(200, n // 4)):
+        cases.append(gen_case(run.rng, run.rng.randint(4, 16), ["Foo", "foo", "Bar/x"], run.rng.choice([[10], [10, 828], [100], [0, 10]]),
+                              [4, 4, 3, 1, 4, 4, 0.3, 0.4, 0.2]))
     nmodel = len(cases)
     for i in range(max(150, n // 5)):
         cases.append(gen_case(run.rng, run.rng.randint(2, 25), BASES_NA))
